@@ -420,6 +420,12 @@ func runC19(c C19Case, o *run.Obs) error {
 		if c.B%2 == 0 && w.Cache != nil {
 			w2.Cache = w.Cache
 			o.Label("warm-shared-cache")
+			if c.B%4 == 0 {
+				// ... through which the unperturbed root has already been opened successfully (with the right configuration)
+				if _, err := w.Load(sr, nil, w.Cache, false); err == nil {
+					o.Label("after-a-successful-open-through-that-cache")
+				}
+			}
 		}
 	}
 	var lm *mast.Mast
